@@ -1,5 +1,6 @@
 import AcraModel.Keystore.CallsImport
 import AcraModel.Keystore.RotateTool
+import AcraModel.Keystore.SysFile
 import Driver.C06
 /-! Driver ops for C08: a history, one write operation under a fault, operations on the same handle
 (when the process survives), reopen, follow-ups.
@@ -36,9 +37,12 @@ def renderBCall : BCall → String
 def renderOutcome : Outcome → String
   | .ok => "ok" | .err => "err" | .crash => "crash"
 
-def parseMode : String → Option FaultMode
+/-- `sys<n>`: the back-end call is a `Put` whose `write(2)` fails after `n` bytes (file size limit). At call
+level that is a `Put` that returned an error without having done anything – theorem `C08.put_error_leaves_no_file`. -/
+def parseMode (t : String) : Option FaultMode :=
+  match t with
   | "none" => some .none | "err" => some .err | "cb" => some .cb | "ca" => some .ca | "torn" => some .torn
-  | _ => none
+  | _ => if t.startsWith "sys" && (t.drop 3).toNat?.isSome then some .err else none
 
 /-- the write operation under test -/
 inductive WOp
@@ -212,8 +216,89 @@ def renderFiles (st : Rotate.RSt) (n : Nat) : String :=
   String.join ((List.range n).map fun i => match st.files 0 i with
     | some 0 => "o" | some _ => "n" | none => "x")
 
+/-! ### system-call level ops (`Keystore/SysFile.lean`) -/
+
+def parseLimit (t : String) : Option (Option Nat) := if t = "-" then some none else t.toNat?.map some
+
+def sysData (len : Nat) : Bytes := List.replicate len 0xAB
+def sysPre : Bytes := [0x70]
+
+def renderRes : Sys.Res → String
+  | .ok => "ok" | .err => "err"
+
+/-- what sits at `p`: nothing, the data, the file that was there before, or `n` other bytes -/
+def renderFile (d : Sys.Disk) (p : Sys.Path) (data : Bytes) : String :=
+  match d p with
+  | none => "absent"
+  | some b => if b = data then "data" else if b = sysPre then "pre" else "len:" ++ toString b.length
+
+/-- `C08.putsys <limit|-> <len> <free|taken>`: `Put` of `len` bytes under a file size limit, then the same `Put`
+again without a limit → `<outcome>;<file>;<retry outcome>;<file>` -/
+def handlePutSys (limit : Option Nat) (len : Nat) (taken : Bool) : String :=
+  let e : Sys.PutEnv := ⟨"rel", "full"⟩
+  let d0 : Sys.Disk := fun p => if p = "full" && taken then some sysPre else none
+  let data := sysData len
+  let flt : Sys.PutFaults := { write := limit.bind fun n => if n < len then some n else none }
+  let r1 := Sys.put e flt d0 data
+  let r2 := Sys.put e Sys.PutFaults.none r1.1 data
+  renderRes r1.2 ++ ";" ++ renderFile r1.1 "full" data ++ ";" ++ renderRes r2.2 ++ ";" ++ renderFile r2.1 "full" data
+
+/-- `C08.copysys <limit|-> <len> <free|taken>`: `Copy` of a `len`-byte file under a file size limit
+→ `<outcome>;<destination>` -/
+def handleCopySys (limit : Option Nat) (len : Nat) (taken : Bool) : String :=
+  let data := sysData len
+  let d0 : Sys.Disk := fun p => if p = "src" then some data else if p = "dst" && taken then some sysPre else none
+  let flt : Sys.CopyFaults := { copy := limit.bind fun n => if n < len then some n else none }
+  let r := Sys.copy flt d0 "src" "dst"
+  renderRes r.2 ++ ";" ++ renderFile r.1 "dst" data
+
+/-- `C08.putsec <fsync|close> <len>` / `C08.copysec <fsync|close> <len>`: the system call fails for good (seccomp
+filter of the child process) → `<outcome>;<file at the path / destination>` -/
+def handleSec (put : Bool) (what : String) (len : Nat) : Option String := do
+  guard (what = "fsync" || what = "close")
+  let data := sysData len
+  if put then
+    let flt : Sys.PutFaults := { sync := what = "fsync", close := what = "close" }
+    let r := Sys.put ⟨"rel", "full"⟩ flt (fun _ => none) data
+    pure (renderRes r.2 ++ ";" ++ renderFile r.1 "full" data)
+  else
+    let d0 : Sys.Disk := fun p => if p = "src" then some data else none
+    let flt : Sys.CopyFaults := { sync := what = "fsync", close := what = "close" }
+    let r := Sys.copy flt d0 "src" "dst"
+    pure (renderRes r.2 ++ ";" ++ renderFile r.1 "dst" data)
+
+/-- `C08.v1nl <limit|-> <len> H <op>… O g:<slot> F <op>…`: v1 store without cache on a storage without hard
+links; the history copy of the rotation under test runs under the file size limit -/
+def handleV1NoLink (limit : Option Nat) (len : Nat) (sc : Scenario) : Option String :=
+  let first := Generated.KeyNames.v1FirstListedIndex
+  let (st, _) := (V1.init (-1)).run sc.hist
+  match sc.op with
+  | .api (.gen s) =>
+    if s.kind.isPair then none else
+    let (st1, trace, out) := Sys.V1.genNoLink Sys.copyCode st s len limit
+    let (_, obs) := st1.clear.run sc.follow
+    some (assemble (joinOr "," (trace.map (renderCall st.fs))) out none (renderObsList first obs))
+  | _ => none
+
 def handle (op : String) (args : List String) : Option String :=
   match op, args with
+  | "putsys", [l, n, pre] => do
+      let limit ← parseLimit l
+      let len ← n.toNat?
+      guard (pre = "free" || pre = "taken")
+      pure (handlePutSys limit len (pre = "taken"))
+  | "copysys", [l, n, pre] => do
+      let limit ← parseLimit l
+      let len ← n.toNat?
+      guard (pre = "free" || pre = "taken")
+      pure (handleCopySys limit len (pre = "taken"))
+  | "putsec", [what, n] => do handleSec true what (← n.toNat?)
+  | "copysec", [what, n] => do handleSec false what (← n.toNat?)
+  | "v1nl", l :: n :: rest => do
+      let limit ← parseLimit l
+      let len ← n.toNat?
+      let sc ← parseSections rest
+      handleV1NoLink limit len sc
   | "v1", c :: m :: k :: rest => do
       let c ← parseInt c
       let mode ← parseMode m
@@ -231,6 +316,19 @@ def handle (op : String) (args : List String) : Option String :=
       let n ← n.toNat?
       let (st, out) := Rotate.exec Rotate.codeVariant ⟨mode, k⟩ 0 Rotate.RSt.init (Rotate.codeEvents [(0, n)])
       pure (renderOutcome out ++ ";" ++ renderFiles st n ++ ";" ++ ".".intercalate ((st.offered 0).map toString))
+  | "rotin", [fmt, j, n] => do
+      -- cut INSIDE the save of the new key pair, right after its j-th storage / back-end call
+      let j ← j.toNat?
+      let n ← n.toNat?
+      let pre := ((V1.init (-1)).run [.gen Rotate.pairSlot]).1.fs
+      let (calls, out, offered) ← (match fmt with
+        | "v1" => let r := Rotate.saveCutV1 j; some (r.1.map (renderCall pre), r.2.1, r.2.2)
+        | "v2" => let r := Rotate.saveCutV2 j; some (r.1.map renderBCall, r.2.1, r.2.2)
+        | _ => none)
+      let off := match offered with
+        | some l => ".".intercalate (l.map toString)
+        | none => "err"
+      pure (joinOr "," calls ++ ";" ++ renderOutcome out ++ ";" ++ String.join (List.replicate n "n") ++ ";" ++ off)
   | _, _ => none
 
 end Driver.C08
